@@ -260,7 +260,8 @@ Proof.
   { apply (IS_grows Ent Hsh hleaf hnode LOG (w_store w1)); try assumption.
     repeat (split; [assumption|]). assumption. }
   assert (Hi2 : MInv (upd_store w1 st')).
-  { destruct Hi1. constructor; unf; auto. rewrite Hml. rewrite Hnx. exact IS'. }
+  { destruct Hi1. constructor; unf; auto; [rewrite Hml; rewrite Hnx; exact IS'|].
+    intros r0 Hr0. apply (serves_ext_grows Ent Hsh (w_store w1)); [exact Gr'|now apply i_persist]. }
   destruct r as [fs2|]; [|exact Hi2].
   (* the checkpoint is signed *)
   set (c := s_res s) in *.
@@ -280,7 +281,7 @@ Proof.
   assert (mN3 : osize mv <= osize (w_mlock w3) /\ (osize (w_mlock w3) = osize mv \/ osize (w_mlock w3) = ck_size c)).
   { unfold w3. cbn [w_mlock]. rewrite Ml2. destruct eff; cbn; lia. }
   assert (Hi3 : MInv w3).
-  { destruct Hi2 as [J1 J2 J3 J4 J5 J6 J7 J8 J9 J10]. fold w2 in J1, J2, J3, J4, J5, J6, J7, J8, J9, J10.
+  { destruct Hi2 as [J1 J2 J3 J4 J5 J6 J7 J8 J9 J10 J11]. fold w2 in J1, J2, J3, J4, J5, J6, J7, J8, J9, J10, J11.
     constructor; unfold w3; cbn [w_store w_plock w_mlock w_pcache w_mcache w_next w_epoch w_sess w_issued w_hi w_signed]; auto.
     - (* the store part with the new mirror size *)
       unfold InvDef.enext. cbn [w_next w_mlock].
@@ -304,14 +305,19 @@ Proof.
         * apply mono_app_last; [exact M1|]. intros x Hx. specialize (M2 x Hx). lia.
         * intros x Hx. apply in_app_or in Hx. destruct Hx as [Hx|[<-|[]]]; [|lia].
           specialize (M2 x Hx). lia.
-      + rewrite app_nil_r. split; [exact M1|exact M2]. }
+      + rewrite app_nil_r. split; [exact M1|exact M2].
+    - intros r0 Hr0. apply in_app_or in Hr0. destruct Hr0 as [Hr0|[<-|[]]]; [now apply J11|].
+      unfold rec_. cbn [sr_ck]. now apply serves_serves_ext. }
   destruct (negb ok) eqn:Nok; [exact Hi3|]. apply negb_false_iff in Nok.
   destruct (pop fs3) as [f4 fs4].
   destruct (do_upload Ent Hsh heqb eeqb (w_store w3) KCkpt (OCk c) false f4) as [st4 ok4] eqn:U4.
   assert (Hi4 : MInv (upd_store w3 st4)).
-  { destruct Hi3 as [J1 J2 J3 J4 J5 J6 J7 J8 J9 J10]. constructor; unf; auto.
-    eapply IS_put_ckpt; [exact J1| |exact U4].
-    unfold w3. cbn [w_mlock]. rewrite (Hok Nok). cbn. lia. }
+  { destruct Hi3 as [J1 J2 J3 J4 J5 J6 J7 J8 J9 J10 J11]. constructor; unf; auto.
+    - eapply IS_put_ckpt; [exact J1| |exact U4].
+      unfold w3. cbn [w_mlock]. rewrite (Hok Nok). cbn. lia.
+    - intros r0 Hr0. apply (serves_ext_grows Ent Hsh (w_store w3)); [|now apply J11].
+      replace st4 with (fst (do_upload Ent Hsh heqb eeqb (w_store w3) KCkpt (OCk c) false f4)) by now rewrite U4.
+      apply do_upload_grows. }
   destruct (negb ok4); exact Hi4.
 Qed.
 
